@@ -288,8 +288,9 @@ def doctest_module(module_identifier=None, command=None, argv=None, exclude=[],
                     continue
                 enabled_examples.append(example)
 
-        if len(enabled_examples) == 0:
-            # Check for zero-arg funcs
+        if len(enabled_examples) == 0 and not gather_all:
+            # Check for zero-arg funcs (a name was given and no doctest has
+            # it; the "all" and "dump" commands never mean a function)
             for example in _gather_zero_arg_examples(parsable_identifier):
                 if command in example.valid_testnames:
                     enabled_examples.append(example)
